@@ -1014,3 +1014,8 @@ package genql
 //@   at-call WriteString:String(text) assert the-key-text-is-the-printed-value-with-one-text-for-both-zeros[C04]:
 //@     | (typeis(callresult(ExecReader, 0), float64) && callresult(ExecReader, 0).(float64) <= 0 && callresult(ExecReader, 0).(float64) >= 0 ==> arg1 == "0") &&
 //@     | (!(typeis(callresult(ExecReader, 0), float64) && callresult(ExecReader, 0).(float64) <= 0 && callresult(ExecReader, 0).(float64) >= 0) ==> arg1 == callresult(Sprintf, 0, 1))
+
+// C03: only a query without GROUP BY collapses into the one row of whole-table aggregates; with GROUP BY every group
+// row is projected by itself, also when the select list holds nothing but aggregates
+//@ func ExecSelect
+//@   at-call SelectExpr:Map{ assert whole-table-aggregation-only-without-group-by[C03]: len(query.groupDefinition) == 0
